@@ -50,7 +50,7 @@ def wellFormed (o : Obs) : Option String :=
     | _, _ => some "half-stamped"
 
 def errKindName : Nat → String
-  | 1 => "pointer" | 2 => "wrapped" | 3 => "value-typed" | 4 => "typed-nil" | _ => "?"
+  | 1 => "pointer" | 2 => "wrapped" | 3 => "value-typed" | 4 => "typed-nil" | 5 => "not-found" | _ => "?"
 def exitKindName : Nat → String
   | 1 => "panic-string" | 2 => "panic-error-value" | 3 => "runtime.Goexit" | _ => "?"
 
@@ -124,7 +124,9 @@ def runSection (r : Report) (s : Section) : Report := Id.run do
     for o in h do
       r := r.addCover s!"{via}-calls"
       if o.ran && !o.serr then r := r.addCover s!"{via}-loaded"
-      if o.ran && o.serr then r := r.addCover s!"{via}-load-failed"
+      if o.ran && o.failed then r := r.addCover s!"{via}-load-failed"
+      if o.created && o.serr then r := r.addCover s!"{via}-load-reported-not-found(placeholder-cached)"
+      if !o.ran && h.any (fun l => some l.id = o.val && l.serr && l.ek = 5) then r := r.addCover s!"{via}-got-not-found-without-query"
       if !o.ran && o.err.isSome then r := r.addCover s!"{via}-joiner-got-leaders-error"
       if o.ran && o.spanic then r := r.addCover s!"{via}-load-panicked"
       if !o.ran && o.panicked then r := r.addCover s!"{via}-joiner-of-panicked-load-panics"
@@ -172,7 +174,7 @@ def runSection (r : Report) (s : Section) : Report := Id.run do
         r := r.addCover "lc-waited-for-running-call"
     if mode = "rm" then
       if o.created then r := r.addCover "rm-created"
-      if o.ran && o.serr && !o.spanic then r := r.addCover "rm-create-failed"
+      if o.ran && o.failed && !o.spanic then r := r.addCover "rm-create-failed"
       if !o.ran && o.val.isSome then r := r.addCover "rm-got-existing"
       if (inj.lookup o.key).isSome then r := r.addCover "rm-call-on-registered-key"
   return r
